@@ -454,18 +454,72 @@ def oracle_fields(hci, info, kw, wrap=None):
 # ----------------------------------------------------------------------------- run
 def _infos(ctx):
     if 'infos' not in _STATE:
-        hci, infos = T.load()
+        # regen() failed (the check is already failing): keep going with the classes that do translate
+        hci, infos = T.load(strict=False)
         _STATE['hci'], _STATE['infos'] = hci, infos
+        _STATE['failed'] = list(T.FAILED)
+        for kind, code, cls, msg in T.FAILED:
+            ctx.log('class skipped by the lenient translator:', msg)
     return _STATE['hci'], _STATE['infos']
+
+
+def flat_names(fields):
+    out = []
+    for f in fields:
+        if isinstance(f, list):
+            out.extend(n for n, _ in f)
+        else:
+            out.append(f[0])
+    return out
+
+
+def specfree_oracle(hci, kind, code, cls, rng, n):
+    """Round-trip oracle that needs no knowledge of the field specs (used for classes the
+    translator could not read): parse a long parameter block of small bytes, rebuild the
+    packet from the parsed field values, serialise and parse again; the field values must
+    come back equal.  The values are in range by construction (they came out of the parser
+    with all the input it wanted)."""
+    names = flat_names(cls.fields)
+    for _ in range(n):
+        params = bytes(rng.below(4) for _ in range(40)) + bytes(rng.below(256) for _ in range(200))
+        if kind == T.KIND_COMMAND:
+            b = bytes([1]) + code.to_bytes(2, 'little') + bytes([len(params)]) + params
+        elif kind == T.KIND_EVENT:
+            b = bytes([4, code, len(params)]) + params
+        else:
+            params = bytes([code]) + params[:-1]
+            b = bytes([4, 0x3E, len(params)]) + params
+        try:
+            p = hci.HCI_Packet.from_bytes(b)
+            if type(p) is not cls:
+                continue
+            kw = {n_: getattr(p, n_) for n_ in names}
+            p2 = cls(**kw)
+            b2 = bytes(p2)
+        except Exception:
+            continue
+        try:
+            p3 = hci.HCI_Packet.from_bytes(b2)
+        except Exception as e:
+            return (f'{cls.__name__}.parse', f'{cls.__name__}: values parsed from {b.hex()} were re-serialised as '
+                    f'{b2.hex()}, which from_bytes rejects ({type(e).__name__})', b)
+        if type(p3) is not cls:
+            return (f'{cls.__name__}.class', f'{cls.__name__}: re-serialised packet {b2.hex()} parses as {type(p3).__name__}', b)
+        for n_ in names:
+            if not (getattr(p3, n_) == kw[n_]):
+                return (f'{cls.__name__}.{n_}', f'{cls.__name__}.{n_}: built with {kw[n_]!r} (values parsed from {b.hex()}), '
+                        f'serialised as {b2.hex()}, parsed back {getattr(p3, n_)!r}', b)
+    return None
 
 
 def run(ctx):
     hci, infos = _infos(ctx)
     rng = ctx.rng
+    ctx.log('harness starts (translator + Coq build of the cone done)')
     ctx.rule = ('every registered class x K value lists (K=%d) drawn per field from boundary sets '
                 '(0,1,127,128,255,256,2^15+-1,2^16-1,2^24-1,2^32-1, signed extremes, byte strings of length '
                 '0/1/n-1/n, arrays of 0/1/2/many items); each built and serialised by the real class and by '
-                'the model, parsed back by HCI_Packet.from_bytes and by the model, plus 4 mutated byte strings '
+                'the model, parsed back by HCI_Packet.from_bytes and by the model, plus 3 mutated byte strings '
                 '(truncate / extend / length byte / byte flips) and one out-of-range value list; ACL/SCO/ISO '
                 'headers over boundary bit-field values; unknown opcodes / event codes / sub-event codes. A case '
                 'is non-trivial when the class has at least one field; distinct by (class, values).'
@@ -543,12 +597,11 @@ def run(ctx):
                     e = add_expr(f'mk {info.kind} {info.code} {coq_values(bad)}')
                     cases.append(('bad', info, bad, e, None, None, k))
 
-    model = ctx.coq_eval(REQUIRES, exprs, preamble=PREAMBLE, shard=_shard(len(exprs)))
-    ctx.log('model round 1 done:', len(exprs), 'expressions')
-
-    # second round: parse what the implementation produced, and mutations of it
+    # the byte strings the model parses are the ones the implementation produced (and
+    # mutations of them), so both sets of expressions go to Coq in one batch
     exprs2 = []
     todo = []
+    ser_checks = []
 
     def add2(b):
         exprs2.append(f'rt {_cb(b)}')
@@ -560,7 +613,6 @@ def run(ctx):
             todo.append(('bytes', None, c[2], add2(c[2]), c[4]))
             continue
         info, vals, e = c[1], c[2], c[3]
-        mb = opt_bytes(model[e])
         try:
             kw = kwargs_of(hci, info.fields, vals)
         except Exception as ex:
@@ -580,9 +632,7 @@ def run(ctx):
             ib = None
         ctx.count('class-cases.' + ['command', 'event', 'le-subevent', 'return-parameters'][info.kind])
         ctx.count('values.out-of-range' if tag == 'bad' else 'values.in-range')
-        if ib != mb:
-            _disagree(ctx, 'serialisation differs', {'class': info.name, 'values': js(vals), 'tag': tag},
-                         mb.hex() if mb is not None else None, ib.hex() if ib is not None else None)
+        ser_checks.append((info, vals, tag, e, ib))
         if tag == 'bad':
             ctx.case(('bad', info.name, repr(vals)), bool(info.fields))
             ctx.count('serialise.' + ('rejected' if ib is None else 'accepted'))
@@ -604,17 +654,25 @@ def run(ctx):
             continue
         hdr = 4 if info.kind == T.KIND_COMMAND else 3
         todo.append(('orig', info, ib, add2(ib), in_contract))
-        for name, mbts in mutations(rng, ib, hdr)[:4 if c[6] < 12 else 1]:
+        for name, mbts in mutations(rng, ib, hdr)[:3 if c[6] < 12 else 1]:
             todo.append((name, info, mbts, add2(mbts), False))
 
     # ---- data packets, unknown codes, custom classes
+    todo.append(('data', None, b'', add2(b''), False))
     for b, wf in gen_data_packets(rng, hci, ctx.n(150, 6000)):
         todo.append(('data', None, b, add2(b), wf))
     for b in gen_unknown(rng, hci, infos, ctx.n(60, 2000)):
         todo.append(('unknown', None, b, add2(b), True))
 
-    model2 = ctx.coq_eval(REQUIRES, exprs2, preamble=PREAMBLE, shard=_shard(len(exprs2)))
-    ctx.log('model round 2 done:', len(exprs2), 'expressions')
+    ctx.log('implementation side done; evaluating the model')
+    allres = ctx.coq_eval(REQUIRES, exprs + exprs2, preamble=PREAMBLE, shard=_shard(len(exprs) + len(exprs2)))
+    model, model2 = allres[:len(exprs)], allres[len(exprs):]
+    ctx.log('model evaluated:', len(exprs), 'build +', len(exprs2), 'parse expressions')
+    for info, vals, tag, e, ib in ser_checks:
+        mb = opt_bytes(model[e])
+        if ib != mb:
+            _disagree(ctx, 'serialisation differs', {'class': info.name, 'values': js(vals), 'tag': tag},
+                      mb.hex() if mb is not None else None, ib.hex() if ib is not None else None)
     for name, info, b, e, wellformed in todo:
         m = model2[e]
         p = impl_parse(hci, b)
@@ -879,6 +937,12 @@ def search(ctx):
     failure (all classes when none is named) get a large boundary sample through the
     property oracle."""
     hci, infos = _infos(ctx)
+    rng0 = ctx.rng.fork('specfree')
+    for kind, code, cls, msg in _STATE.get('failed', []):
+        bad = specfree_oracle(hci, kind, code, cls, rng0, 300)
+        if bad:
+            ctx.violation(bad[0], bad[1], {'kind': 'specfree', 'class': cls.__name__, 'hex': bad[2].hex()})
+            return
     named = set()
     text = json.dumps(ctx.disagreements, default=repr) + ' '.join(ctx.proof_failures)
     for i in infos:
@@ -937,6 +1001,21 @@ def replay(ctx, obj):
             print('oracle:', 'holds' if b2 == b else 'VIOLATED: re-serialised bytes differ from the input')
         else:
             print('oracle: VIOLATED: well-formed packet rejected')
+        return 0
+    if r['kind'] == 'specfree':
+        b = bytes.fromhex(r['hex'])
+        p = hci.HCI_Packet.from_bytes(b)
+        cls = type(p)
+        kw = {n_: getattr(p, n_) for n_ in flat_names(cls.fields)}
+        b2 = bytes(cls(**kw))
+        print('values parsed from', b.hex(), ':', kw)
+        print('re-serialised:', b2.hex())
+        try:
+            p3 = hci.HCI_Packet.from_bytes(b2)
+            bad = [n_ for n_ in kw if not (getattr(p3, n_) == kw[n_])]
+            print('oracle:', 'holds' if not bad and type(p3) is cls else f'VIOLATED: fields {bad} differ after the round trip')
+        except Exception as e:
+            print('oracle: VIOLATED: re-serialised packet rejected:', type(e).__name__)
         return 0
     info = next(i for i in infos if i.name == r['class'])
     if r['kind'] == 'custom':
